@@ -343,6 +343,7 @@ def itemStr (c : Case) : Item → String
     let nm := if emitsAlt (c.cbs.getD l 0) then "Alt" else c.names.getD l "?"
     s!"{nm}:{s}-{e}"
   | .err none s e => (if c.errCb then s!"!b{e - s}" else "!d") ++ s!":{s}-{e}"
+  | .err (some 0) s e => s!"!d:{s}-{e}"      -- an explicitly returned error equal to the default value
   | .err (some t) s e => s!"!c{t}:{s}-{e}"
 
 def streamStr (c : Case) (r : List Item × Final) : String :=
